@@ -4,7 +4,7 @@ C06 — symbol table contents and port wiring always equal the spec graph.
 Theorems about `Uniflow.Table` (model of `pkg/symbol/table.go`).
 -/
 import Uniflow.Proofs.Table
-import Uniflow.Props.C08
+import Uniflow.Proofs.TablePass
 
 namespace Uniflow.Table
 
@@ -209,7 +209,7 @@ theorem closeOrder_cover (o : Ord) (ho : o.Valid) (st : State) (l : List Sym)
   obtain ⟨f1, f2, _⟩ := hfold (o.syms 2 st.symbols) [] (by simp)
   rw [hd] at f1 f2
   simp only at h
-  cases hk : kahn (targetsOf o st) (fuelOf st)
+  cases hk : kahn (targetsOf o st) (kahnFuel (((o.deg 2 deg0).filter (fun p => p.2.2 = 0)).map (·.2.1)) deg0)
       (((o.deg 2 deg0).filter (fun p => p.2.2 = 0)).map (·.2.1)) [] deg0 with
   | none => rw [hk] at h; cases h
   | some res =>
